@@ -160,6 +160,37 @@ class Interp:
         self.oblige(name, False, "safety")
         raise PathEnd()
 
+    def check_not_vacuous(self, where, n_before=None):
+        """Vacuity guard: assuming a callee's postcondition (or a loop
+        invariant) must not make the path condition contradictory -- a
+        contradiction there would discharge everything downstream for
+        free.  Reported as a checker error (exit 3), never as a pass."""
+        if self.ghost.get("vacuous"):
+            return
+        # quantifier-free part only: the contradictions this guards against
+        # (an `assume False`, clashing scalar facts) live there, and it
+        # costs milliseconds
+        s = z3.Solver()
+        s.set("timeout", 400)
+        for f in self.pc:
+            if not _has_quant(f):
+                s.add(f)
+        if s.check() == z3.unsat:
+            self.ghost["vacuous"] = True
+            if n_before is not None:
+                # already infeasible before the call: an unreachable branch,
+                # not a contradictory contract
+                s0 = z3.Solver()
+                s0.set("timeout", 400)
+                for f in self.pc[:n_before]:
+                    if not _has_quant(f):
+                        s0.add(f)
+                if s0.check() == z3.unsat:
+                    return
+            self.V.vacuity_alarms.append(
+                f"{self.func_stack[0]}: path condition contradictory "
+                f"{where} (line {self.cur_line})")
+
     def sum_lemmas(self, goal):
         """Finite-sum congruence (Lean: Finset.sum_congr), instantiated for
         every pair of sum terms one of which occurs in the goal:
@@ -185,7 +216,7 @@ class Interp:
                 k = z3.Int(self.namer.fresh("q_sc"))
                 ante = z3.And(loa == lob, hia == hib, z3.ForAll(
                     [k], z3.Implies(z3.And(loa <= k, k < hia),
-                                    z3.Select(la, k) == z3.Select(lb, k))))
+                                    lib.lam_at(la, k) == lib.lam_at(lb, k))))
                 self.pc.append(z3.Implies(ante, a == b))
                 self.stats.lib_used.add("lemma:sum_congr")
 
@@ -232,6 +263,9 @@ class Interp:
             self.add_pc(z3.Not(cond))
             return False
         raise PathEnd()
+
+    def add_pc_checked(self, f):
+        self.add_pc(f)
 
     def add_pc(self, f):
         """append a decided condition, flattening conjunctions so that
@@ -374,6 +408,8 @@ class Interp:
                 for a, x in v.attrs.items():
                     o.attrs[a] = cp(x)
                 return o
+            if isinstance(v, OptVal):
+                return OptVal(v.present, cp(v.value))
             if isinstance(v, tuple):
                 return tuple(cp(x) for x in v)
             if isinstance(v, list):
@@ -697,6 +733,9 @@ class Interp:
         else:
             enter = self.fork(kv < seq.length)
         if enter:
+            for j, e in enumerate(spec.get("body_pre", [])):
+                self.oblige(f"{tag}:body_pre[{j}]", self.eval_spec(e, env),
+                            "loop_body_pre", st.lineno)
             variant0 = None
             if spec.get("variant"):
                 variant0 = self.eval_spec(spec["variant"], env)
@@ -713,6 +752,10 @@ class Interp:
             if iterable is not None:
                 env[idx_name] = kv + 1
             self.check_loop_frame(spec, marks, env, tag)
+            for j, e in enumerate(spec.get("continue_pre", [])):
+                self.oblige(f"{tag}:continue_pre[{j}]",
+                            self.eval_spec(e, env), "loop_continue_pre",
+                            st.lineno)
             for j, e in enumerate(spec.get("inv", [])):
                 self.oblige(f"{tag}:inv_preserved[{j}]",
                             self.eval_spec(e, env), "loop_inv", st.lineno)
@@ -726,6 +769,9 @@ class Interp:
             self.V.note_cover(f"{self.func_stack[0]}:{tag}:body_end")
             raise PathEnd()
         # loop exit by the guard
+        for j, e in enumerate(spec.get("exit_post", [])):
+            self.oblige(f"{tag}:exit_post[{j}]", self.eval_spec(e, env),
+                        "loop_exit_post", st.lineno)
         if iterable is not None:
             env[idx_name] = seq.length
             self.assume(kv == seq.length)
@@ -738,6 +784,8 @@ class Interp:
         seen = set()
 
         def go(path, v):
+            if isinstance(v, OptVal):
+                v = v.value
             if isinstance(v, Cell):
                 marks[path] = ("cell", v, v.version)
             elif isinstance(v, Obj):
@@ -765,6 +813,8 @@ class Interp:
             changed = False
             if m[0] == "cell":
                 cur = self.lookup_path(path, env, missing_ok=True)
+                if isinstance(cur, OptVal):
+                    cur = cur.value
                 changed = cur is not m[1] or m[1].version != m[2]
             else:
                 obj, old = m[1], m[2]
@@ -1420,6 +1470,7 @@ class Interp:
                 c = bz(self.eval_spec(cond, env))
                 self.oblige(f"{site}:no_{exc}", z3.Not(c), "call_noraise")
             old = self.snapshot(env)
+            n_pc_before = len(self.pc)
             for path in con.modifies:
                 self.havoc_path(path, env, f"{con.func}@{self.cur_line}",
                                 binding=env)
@@ -1450,6 +1501,7 @@ class Interp:
                         "bind_call_results", {}).items():
                     if con.func in callees:
                         self.ghost_vals[gname] = res
+            self.check_not_vacuous(f"after {site}", n_pc_before)
             self.call_log.append({
                 "callee": con.func, "line": self.cur_line, "result": res,
                 "post": {p: self.snapshot({"v": self.lookup_path(
